@@ -74,7 +74,7 @@ fn make_jail() -> Result<TempDir, (String, String)> {
 }
 
 /// fork, chroot into `jail`, extract `pkg` to the target; returns (exit code, message)
-fn extract_in_jail(jail: &Path, pkg: &rpm::Package) -> Result<(i32, String), (String, String)> {
+fn extract_in_jail(jail: &Path, pkg: &rpm::Package, umask: u32) -> Result<(i32, String), (String, String)> {
     let result_path = jail.parent().unwrap().join(format!("{}.result", jail.file_name().unwrap().to_string_lossy()));
     let result_file = std::fs::File::create(&result_path).map_err(|e| ("harness-io".to_string(), e.to_string()))?;
     let cjail = std::ffi::CString::new(jail.as_os_str().to_string_lossy().as_bytes()).unwrap();
@@ -92,7 +92,7 @@ fn extract_in_jail(jail: &Path, pkg: &rpm::Package) -> Result<(i32, String), (St
                 let _ = rf.write_all(b"chroot refused");
                 libc::_exit(9);
             }
-            libc::umask(0o022);
+            libc::umask(umask as libc::mode_t);
             0
         };
         let _ = code;
@@ -310,7 +310,10 @@ fn inner(case: &C12Case, o: &mut Outcome) -> Result<(), (String, String)> {
     let jail = make_jail()?;
     let target = jail.0.join(TARGET_PARENT).join("t");
     let before = snapshot(&jail.0, &target);
-    let (code, msg) = extract_in_jail(&jail.0, &pkg)?;
+    // the process umask must not influence the permission bits of listed entries
+    let umask = [0o022u32, 0o077, 0o000, 0o027][(fnv1a(serde_json::to_string(case).unwrap_or_default().as_bytes()) % 4) as usize];
+    o.label(format!("umask-{:03o}", umask));
+    let (code, msg) = extract_in_jail(&jail.0, &pkg, umask)?;
     if code == 9 {
         return Err(("harness-chroot".into(), "chroot() refused in this sandbox".into()));
     }
